@@ -15,6 +15,7 @@
 package simrt
 
 import (
+	"os"
 	"fmt"
 	"hash/fnv"
 	"runtime"
@@ -263,7 +264,11 @@ func (s *Sched) choose(n int, gen func() int) int {
 //
 //go:norace
 func (s *Sched) Aux(n int) int {
-	return s.choose(n, func() int { return s.aux.Intn(n) })
+	v := s.choose(n, func() int { return s.aux.Intn(n) })
+	if s.cfg.Trace && os.Getenv("VERIF_TRACE_AUX") != "" {
+		s.Logf("aux(%d)=%d", n, v)
+	}
+	return v
 }
 
 //go:norace
